@@ -29,6 +29,8 @@ pub struct Sched {
     pub blocked_seen: bool,
     /// condvar waits that ran out of other actors (stuck detector input)
     pub cv_waits: u8,
+    /// the shim `sleep` was reached (FutWait::fut_wait sleeping inside poll)
+    pub slept: bool,
     /// shim operations the outer operation has executed since every other actor finished
     pub idle_steps: u32,
     /// outer operation is allowed to spin this many steps with nobody else left to run before
@@ -48,6 +50,7 @@ pub static mut SCHED: Sched = Sched {
     max_steps_seen: 0,
     blocked_seen: false,
     cv_waits: 0,
+    slept: false,
     idle_steps: 0,
     idle_limit: 0,
 };
@@ -80,6 +83,7 @@ pub fn configure(max_depth: u8, budget: u8, kinds: u16, per_site: u8) {
     s.max_steps_seen = 0;
     s.blocked_seen = false;
     s.cv_waits = 0;
+    s.slept = false;
     s.idle_steps = 0;
     s.idle_limit = 0;
 }
@@ -148,6 +152,9 @@ pub fn point_impl<Sc: Scenario>(kind: u8, _addr: usize) {
         return;
     }
     s.steps += 1;
+    if kind == 8 {
+        s.slept = true;
+    }
     if s.depth >= s.max_depth {
         return;
     }
@@ -257,6 +264,28 @@ macro_rules! mq_harness {
         #[cfg_attr(kani, kani::stub(multiqueue2::verif_hooks::MemoryManager::update_token, multiqueue2::verif_hooks::memory_access::stub_update_token))]
         #[cfg_attr(kani, kani::stub(multiqueue2::verif_hooks::MemoryManager::free, multiqueue2::verif_hooks::memory_access::stub_free))]
         #[cfg_attr(kani, kani::stub(multiqueue2::memory::ToFree::delete, multiqueue2::verif_hooks::memory_access::stub_delete))]
+        #[cfg_attr(kani, kani::stub(std::thread::sleep, multiqueue2::verif_hooks::sleep))]
+        pub fn $name() {
+            #[cfg(not(kani))]
+            $hooks::install();
+            $body
+        }
+    };
+}
+
+/// Like `mq_harness!` but with the REAL memory manager (no stubs for get_token / remove_token /
+/// update_token / free / ToFree::delete).  The explicit pipeline restricts the function pointer in
+/// `ToFree::delete` to the `do_free::<T>` instances present (DESIGN.md section 3.3).
+#[macro_export]
+macro_rules! mq_harness_real {
+    ($name:ident, $hooks:ident, $sc:ty, $body:expr) => {
+        $crate::sched_hooks!($hooks, $sc);
+
+        #[cfg_attr(kani, kani::proof)]
+        #[cfg_attr(kani, kani::stub(multiqueue2::verif_hooks::rt::point, $hooks::point))]
+        #[cfg_attr(kani, kani::stub(multiqueue2::verif_hooks::rt::blocked, $hooks::blocked))]
+        #[cfg_attr(kani, kani::stub(multiqueue2::verif_hooks::rt::cv_wait, $hooks::cv_wait))]
+        #[cfg_attr(kani, kani::stub(multiqueue2::verif_hooks::rt::alloc_event, $hooks::alloc_event))]
         #[cfg_attr(kani, kani::stub(std::thread::sleep, multiqueue2::verif_hooks::sleep))]
         pub fn $name() {
             #[cfg(not(kani))]
